@@ -370,6 +370,61 @@ func evalC13(c c13Case, o *Obs) error {
 			}
 		}
 	}
+	// large sets: the members that stand on and next to every 1024th place of the sorted value list (where an
+	// implementation that works through the list in blocks changes blocks), each asked for alone
+	if len(items) > 2048 {
+		np := uint64(len(items)) * c.D.M
+		order := make([]int, len(items))
+		vals := make([]uint64, len(items))
+		for i, d := range items {
+			order[i] = i
+			vals[i] = refReduce(refSipHash(key, d), np)
+		}
+		sort.Slice(order, func(a, b int) bool { return vals[order[a]] < vals[order[b]] })
+		for p := 1024; p < len(order); p += 1024 {
+			for _, q := range []int{p - 1, p, p + 1} {
+				if q >= len(order) {
+					continue
+				}
+				it := items[order[q]]
+				for name, fn := range map[string]func([16]byte, [][]byte) (bool, error){"ZipMatchAny": f.ZipMatchAny, "HashMatchAny": f.HashMatchAny} {
+					if ok, err := fn(key, [][]byte{it}); err != nil || !ok {
+						return fmt.Errorf("%s: the member at place %d of the sorted values (%x) is not matched by %s (%v, %v)", desc, q, it, name, ok, err)
+					}
+				}
+			}
+		}
+		o.Class("C13:members-at-every-1024th-sorted-place")
+		if len(items) > 60000 {
+			// ... and a query of more than 2^16 items whose only member comes last
+			q := make([][]byte, 0, 65600)
+			for i := 0; i < 65599; i++ {
+				q = append(q, derivedItem(c.D.Seed+9, i))
+			}
+			anyForeign := false
+			set := map[uint64]bool{}
+			for _, v := range vals {
+				set[v] = true
+			}
+			for _, d := range q {
+				if set[refReduce(refSipHash(key, d), np)] {
+					anyForeign = true
+				}
+			}
+			q = append(q, items[order[len(order)/2]])
+			for name, fn := range map[string]func([16]byte, [][]byte) (bool, error){"MatchAny": f.MatchAny, "ZipMatchAny": f.ZipMatchAny, "HashMatchAny": f.HashMatchAny} {
+				if ok, err := fn(key, q); err != nil || !ok {
+					return fmt.Errorf("%s: a query of %d items whose last one is a member is not matched by %s (%v, %v)", desc, len(q), name, ok, err)
+				}
+				if !anyForeign {
+					if ok, err := fn(key, q[:len(q)-1]); err != nil || ok {
+						return fmt.Errorf("%s: a query of %d non-members is matched by %s (%v, %v)", desc, len(q)-1, name, ok, err)
+					}
+				}
+			}
+			o.Class("C13:query-of-more-than-2^16-items")
+		}
+	}
 	// a sibling filter (other key, other parameters) is built and queried in between, and every
 	// query is asked twice: answers must be stable and filters must not share state
 	var hk [16]byte
